@@ -6,6 +6,7 @@ import (
 	"fmt"
 	"io"
 	"sync"
+	"time"
 
 	"golang.org/x/image/font/gofont/goregular"
 
@@ -27,6 +28,7 @@ var errInjected = errors.New("verif: injected I/O fault")
 type faultWriter struct {
 	k        int
 	short    bool
+	err      error // the error reported (errInjected if nil)
 	accepted int
 	failed   bool
 	calls    int
@@ -34,6 +36,10 @@ type faultWriter struct {
 
 func (w *faultWriter) Write(p []byte) (int, error) {
 	w.calls++
+	errInjected := errInjected
+	if w.err != nil {
+		errInjected = w.err
+	}
 	if w.failed {
 		return 0, errInjected
 	}
@@ -170,12 +176,16 @@ func c18Fonts(thorough bool) []*c18Font {
 		g3, _ := FontFromChoices(gen.FontOpts{NoMeta: true, NoLayout: true}, 0, 1, 2, 2, 1)
 		g3.Outlines.(*glyf.Outlines).Tables = map[string][]byte{"gasp": {0, 1, 0, 1, 0xFF, 0xFF, 0, 3}, "zzzz": {}}
 		add("glyf-3-empty-last", g3)
+		// ... and one whose physically last table is a private table the reader never looks into
+		g4, _ := FontFromChoices(gen.FontOpts{NoMeta: true, NoLayout: true}, 0, 1, 2, 2, 1)
+		g4.Outlines.(*glyf.Outlines).Tables = map[string][]byte{"gasp": {0, 1, 0, 1, 0xFF, 0xFF, 0, 3}, "zzzz": {1, 2, 3, 4, 5, 6, 7, 8, 9, 10, 11, 12, 13}}
+		add("glyf-3-private-last", g4)
 		cf, _ := FontFromChoices(gen.FontOpts{NoMeta: true}, 1, 2, 1, 1, 2, 1, 3, 1)
 		add("cff-6", cf)
 		ci, _ := FontFromChoices(gen.FontOpts{NoMeta: true}, 2, 2, 2, 1, 1, 3, 2, 1, 0)
 		add("cid-6", ci)
 	})
-	if thorough && len(c18Corpus) == 5 {
+	if thorough && len(c18Corpus) == 6 {
 		f, err := sfnt.Read(bytes.NewReader(goregular.TTF))
 		if err != nil {
 			explore.Fatal("C18: go regular: %v", err)
@@ -191,6 +201,9 @@ var c18Modes = []string{
 	"cff.Write/reject", "cff.Write/short",
 	"truncate/ReaderAt", "truncate/Reader",
 	"fault/ReaderAt", "fault/ReaderAt-partial", "fault/Reader",
+	// a destination whose failure is reported as io.ErrShortWrite, persistently (a sink with a quota, a
+	// bufio.Writer after a short write underneath)
+	"Write/ErrShortWrite", "WritePDF/ErrShortWrite", "cff.Write/ErrShortWrite",
 }
 
 func init() {
@@ -207,6 +220,10 @@ func init() {
 			fo := fonts[fi]
 			mode := c.Choose(len(c18Modes), "mode")
 			mname := c18Modes[mode]
+			var werr error
+			if mode >= 11 {
+				mode, werr = []int{1, 3, 5}[mode-11], io.ErrShortWrite
+			}
 			isCFF := fo.font.IsCFF()
 			// reference output for the write modes
 			var ref []byte
@@ -247,20 +264,30 @@ func init() {
 			sig := mname
 			switch mode {
 			case 0, 1, 2, 3, 4, 5:
-				w := &faultWriter{k: k, short: mode%2 == 1}
+				w := &faultWriter{k: k, short: mode%2 == 1, err: werr}
 				var n int64 = -1
 				var err error
-				switch mode {
-				case 0, 1:
-					n, err = fo.font.Write(w)
-				case 2, 3:
-					if isCFF {
-						err = fo.font.WriteOpenTypeCFFPDF(w)
-					} else {
-						n, err = fo.font.WriteTrueTypePDF(w)
+				fin, pmsg := withWatchdog(20*time.Second, func() {
+					switch mode {
+					case 0, 1:
+						n, err = fo.font.Write(w)
+					case 2, 3:
+						if isCFF {
+							err = fo.font.WriteOpenTypeCFFPDF(w)
+						} else {
+							n, err = fo.font.WriteTrueTypePDF(w)
+						}
+					default:
+						err = fo.font.AsCFF().Write(w)
 					}
-				default:
-					err = fo.font.AsCFF().Write(w)
+				})
+				if !fin {
+					c.FailObserved("C18.terminates", sig, "%s on %s: the write does not return within 20 s when the destination fails after %d bytes", mname, fo.name, k)
+					return
+				}
+				if pmsg != "" {
+					c.Fail("C18.panic", sig+" / "+explore.PanicSignature(pmsg), "%s on %s: the write panics when the destination fails after %d bytes: %s", mname, fo.name, k, pmsg)
+					return
 				}
 				if w.failed {
 					c.Nontrivial()
